@@ -174,6 +174,33 @@ def w_transform(ctx, rng, i):
     ctx.bin("class", cls)
 
 
+def w_gv_axes(ctx, rng, i):
+    """gv configured WITH a slot count (it then holds its own t/w axes), a signal of exactly N*sps samples, then the rate is changed
+    with the same sps and N omitted: w() must follow the sampling rate now in force."""
+    sps = int(rng.choice([2, 4, 8, 16]))
+    N = int(rng.choice([5, 10, 16, 33]))
+    R1, R2 = (float(v) for v in rng.choice([1e9, 2.5e9, 1e10, 2e10, 4e10], 2, replace=False))
+    n = N * sps
+    cls = ["el", "opt1", "opt2"][i % 3]
+    x = make(rng, cls, n, "complex", bool(rng.integers(2)))
+    ctx.describe(sps=sps, N=N, R_sequence=[R1, R2], cls=cls)
+    with core.quiet():
+        T.gv(sps=sps, R=R1, N=N)
+        x.w(), x.w(shift=True)                      # w.post decides
+        form = int(rng.integers(3))
+        if form == 0:
+            T.gv(sps=sps, R=R2)
+        elif form == 1:
+            T.gv(sps=sps, fs=R2 * sps)
+        else:
+            T.gv(R=R2, fs=R2 * sps)
+        x.w(), x.w(shift=True)
+        X = x("w", shift=True)
+        ctx.check("w.relations", np.isclose(x.w(shift=True)[n // 2 + 1] - x.w(shift=True)[n // 2], 2 * np.pi * R2 * sps / n, rtol=1e-12) if n > 2 else True, "w() pitch does not follow the reconfigured rate")
+        T.gv.clean()
+    ctx.case(("gvaxes", sps, N, R1, R2, cls, form), sample=dict(sps=sps, N=N, R_sequence=[R1, R2]) if i < 2 else None)
+
+
 def w_errors(ctx, rng, i):
     x = make(rng, ["el", "opt1", "opt2"][i % 3], 8, "complex", True)
     with core.quiet():
@@ -197,6 +224,7 @@ def w_devices_use(ctx, rng, i):
 
 WORKLOADS = [
     Workload("transform", w_transform, 1600, 160000),
+    Workload("gv_axes", w_gv_axes, 200, 10000),
     Workload("errors", w_errors, 12, 120),
     Workload("devices_use", w_devices_use, 20, 400),
     Workload("repo_tests", lambda ctx, rng, i: core.run_repo_tests(ctx), 1, 1, budget=1800, tiers=("thorough",)),
